@@ -8,11 +8,12 @@ use crate::sx;
 use crate::text::{Printer, Spelling};
 use indexmap::IndexMap;
 use rooc::model_transformer::{Exp, Model};
-use rooc::pipe::{AutoSolverPipe, CompilerPipe, LinearModelPipe, ModelPipe, PipeContext, PipeRunner, PipeableData, PreModelPipe};
-use rooc::{Auto, BinOp, BuilderConstraint, BuilderError, Expr, Linearizer, MILPValue, ModelBuilder, OptimizationType, RoocParser, UnOp, Var, VariableType};
+use rooc::pipe::{AutoSolverPipe, CompilerPipe, LinearModelPipe, MILPSolverPipe, ModelPipe, PipeContext, PipeRunner, PipeableData, PreModelPipe, RealSolver};
+use rooc::{Auto, Clarabel, RoocSolver, RoocSolverError, Comparison, BinOp, BuilderConstraint, BuilderError, Expr, Linearizer, MILPValue, ModelBuilder, OptimizationType, RoocParser, UnOp, Var, VariableType};
 
 /// abstract expression -> builder expression THROUGH THE PUBLIC OPERATOR / HELPER API
 fn to_builder(e: &Exp, vars: &IndexMap<String, Var>, r: &mut Rng) -> Expr {
+    if let Exp::BinOp(..) = e { return to_builder_bin(e, vars, r); }
     let mut go = |x: &Exp| to_builder(x, vars, r);
     match e {
         Exp::Number(v) => Expr::from(*v),
@@ -26,20 +27,58 @@ fn to_builder(e: &Exp, vars: &IndexMap<String, Var>, r: &mut Rng) -> Expr {
         Exp::Xor(a, b) => { let l = go(a); let rr = go(b); l ^ rr }
         Exp::Implies(a, b) => { let l = go(a); let rr = go(b); l.implies(rr) }
         Exp::Iff(a, b) => { let l = go(a); let rr = go(b); l.iff(rr) }
-        Exp::BinOp(op, a, b) => {
-            let l = go(a);
-            let rr = go(b);
-            match op {
-                BinOp::Add => l + rr, BinOp::Sub => l - rr, BinOp::Mul => l * rr, BinOp::Div => l / rr,
-                // the operators build the structural n-ary / binary logic forms
-                BinOp::And => l & rr, BinOp::Or => l | rr, BinOp::Xor => l ^ rr,
-                BinOp::Implies => l.implies(rr), BinOp::Iff => l.iff(rr),
-            }
-        }
+        Exp::BinOp(..) => unreachable!(),
         Exp::UnOp(UnOp::Neg, x) => -go(x),
         Exp::UnOp(UnOp::Not, x) => !go(x),
     }
 }
+
+
+fn to_builder_bin(e: &Exp, vars: &IndexMap<String, Var>, r: &mut Rng) -> Expr {
+    let Exp::BinOp(op, a, b) = e else { unreachable!() };
+            // exercise every overload arm of the public operator API: literals as i32 / f64, variables as `Var`
+            #[derive(Clone)]
+            enum Opnd { I(i32), F(f64), V(Var), E(Expr) }
+            let mut classify = |x: &Exp, r: &mut Rng| -> Opnd {
+                match x {
+                    Exp::Number(v) if v.fract() == 0.0 && v.abs() < 1e6 && r.chance(1, 2) => Opnd::I(*v as i32),
+                    Exp::Number(v) if r.chance(1, 2) => Opnd::F(*v),
+                    Exp::Variable(n) if r.chance(2, 3) => Opnd::V(vars[n]),
+                    other => Opnd::E(to_builder(other, vars, r)),
+                }
+            };
+            let l = classify(a, r);
+            let rr = classify(b, r);
+            macro_rules! arith {
+                ($op:tt) => {
+                    match (l.clone(), rr.clone()) {
+                        (Opnd::I(x), Opnd::V(y)) => x $op y,
+                        (Opnd::I(x), Opnd::E(y)) => x $op y,
+                        (Opnd::F(x), Opnd::V(y)) => x $op y,
+                        (Opnd::F(x), Opnd::E(y)) => x $op y,
+                        (Opnd::V(x), Opnd::I(y)) => x $op y,
+                        (Opnd::V(x), Opnd::F(y)) => x $op y,
+                        (Opnd::V(x), Opnd::V(y)) => x $op y,
+                        (Opnd::V(x), Opnd::E(y)) => x $op y,
+                        (Opnd::E(x), Opnd::I(y)) => x $op y,
+                        (Opnd::E(x), Opnd::F(y)) => x $op y,
+                        (Opnd::E(x), Opnd::V(y)) => x $op y,
+                        (Opnd::E(x), Opnd::E(y)) => x $op y,
+                        (Opnd::I(x), Opnd::I(y)) => Expr::from(x) $op Expr::from(y),
+                        (Opnd::I(x), Opnd::F(y)) => Expr::from(x) $op y,
+                        (Opnd::F(x), Opnd::I(y)) => x $op Expr::from(y),
+                        (Opnd::F(x), Opnd::F(y)) => Expr::from(x) $op y,
+                    }
+                };
+            }
+            let ex = |o: Opnd| match o { Opnd::I(x) => Expr::from(x), Opnd::F(x) => Expr::from(x), Opnd::V(x) => Expr::from(x), Opnd::E(x) => x };
+            match op {
+                BinOp::Add => arith!(+), BinOp::Sub => arith!(-), BinOp::Mul => arith!(*), BinOp::Div => arith!(/),
+                // the operators build the structural n-ary / binary logic forms
+                BinOp::And => ex(l) & ex(rr), BinOp::Or => ex(l) | ex(rr), BinOp::Xor => ex(l) ^ ex(rr),
+                BinOp::Implies => ex(l).implies(ex(rr)), BinOp::Iff => ex(l).iff(ex(rr)),
+            }
+        }
 
 /// the same expression with the structural forms the builder operators produce (for the tree comparison)
 fn builder_shape(e: &Exp) -> Exp {
@@ -108,8 +147,110 @@ pub fn generate(seed: u64, n: usize, _thorough: bool, _corpus: Option<&str>) -> 
         let unused = r.chance(1, 3);
         if unused { ds.push(VarDecl { name: "unused".into(), ty: VariableType::IntegerRange(2, 3) }); }
         out.extend(one(&m, &ds, &mut r, i));
+        if i % 2 == 0 { if let Some(c) = eval_probe(&mut r) { out.push(c); } }
+        if i % 2 == 1 { out.push(continuous_doors(&mut r)); }
     }
     out
+}
+
+/// `BuilderSolution::eval` at a CHOSEN point: variables are pinned by `v = c` rows, then an arbitrary
+/// expression is evaluated at the solution and compared bit-exactly with the Lean `evalExpr`.
+fn eval_probe(r: &mut Rng) -> Option<Case> {
+    let names: Vec<String> = ["p", "q", "s"].iter().map(|x| x.to_string()).collect();
+    let ds: Vec<VarDecl> = names.iter().map(|n| VarDecl { name: n.clone(), ty: VariableType::IntegerRange(-4, 4) }).collect();
+    let vals: Vec<f64> = (0..3).map(|_| r.range(-4, 4) as f64).collect();
+    let mut b = ModelBuilder::new();
+    let mut handles = IndexMap::new();
+    for d in &ds { handles.insert(d.name.clone(), b.add_var(d.name.clone(), d.ty)); }
+    let mut b = b.satisfy();
+    for (n, v) in names.iter().zip(&vals) {
+        b = b.with(BuilderConstraint::new(Expr::from(handles[n]), Comparison::Equal, Expr::from(*v), String::new()));
+    }
+    let sol = b.solve_with(Auto).ok()?;
+    let cfg = ModelCfg { max_vars: 3, depth: 3, logic: true, piecewise: true, unbounded: false, fractional: true, strict_cmp: false, hostile: false };
+    // numeric and logic operators over ALL variables (truthiness of non-0/1 values included: eval_expr is total)
+    let e = if r.chance(1, 2) { gen_model::num_exp(r, &ds, &cfg, 3) } else { crate::gen_exp::exp(r, &crate::gen_exp::ExpCfg { vars: names.clone(), logic: true, minmax: true, special: false }, 3) };
+    let be = to_builder(&e, &handles, r);
+    let mut c = Case::default();
+    c.req = format!("eval-expr {} (vals {})", sx::exp(&builder_shape(&index_exp(&e, &names))), sx::nums(&vals));
+    c.imp = format!("(ok {})", sx::num(sol.eval(&be)));
+    c.show = format!("solution.eval({}) at {:?}", e, vals);
+    c.tags = vec!["eval-probe".into()];
+    c.nontrivial = true;
+    Some(c)
+}
+
+fn real_outcome(r: Result<rooc::LpSolution<f64>, rooc::SolverError>) -> (String, Option<f64>) {
+    match r {
+        Ok(s) => ("solution".into(), Some(s.value())),
+        Err(e) => (crate::props::c03::solver_error(&e), None),
+    }
+}
+
+/// a continuous model through the real-solver doors: builder + Clarabel, text + RoocSolver + clarabel, the
+/// PipeRunner preset ending in `RealSolver`, and the direct entry point on the compiled linear model.
+fn continuous_doors(r: &mut Rng) -> Case {
+    let cfg = ModelCfg { max_vars: 3, depth: 2, logic: false, piecewise: false, unbounded: false, fractional: false, strict_cmp: false, hostile: false };
+    let nv = 1 + r.below(3);
+    let names = ["x", "y", "z"];
+    let ds: Vec<VarDecl> = (0..nv).map(|k| {
+        let lo = r.range(-3, 1) as f64;
+        let ty = if r.chance(1, 2) { VariableType::Real(lo, lo + r.range(1, 6) as f64) } else { VariableType::NonNegativeReal(0.0, r.range(1, 6) as f64) };
+        VarDecl { name: names[k].to_string(), ty }
+    }).collect();
+    let (m, _) = gen_model::model_with(r, &cfg, ds.clone());
+    let mut handles = IndexMap::new();
+    let mut b = ModelBuilder::new();
+    for d in &ds { handles.insert(d.name.clone(), b.add_var(d.name.clone(), d.ty)); }
+    let obj = to_builder(&m.objective().rhs, &handles, r);
+    let mut b = match m.objective().objective_type { OptimizationType::Min => b.minimize(obj), OptimizationType::Max => b.maximize(obj), OptimizationType::Satisfy => b.satisfy() };
+    for c in m.constraints() {
+        b = b.with(BuilderConstraint::new(to_builder(c.lhs(), &handles, r), c.constraint_type(), to_builder(c.rhs(), &handles, r), c.name().to_string()));
+    }
+    let text_model = gen_model::build(m.objective().objective_type.clone(), m.objective().rhs.clone(), m.constraints().clone(), &ds);
+    let mut pr = r.fork();
+    let text = Printer { r: &mut pr, sp: Spelling { aliases: false, implicit_mul: r.chance(1, 2), redundant_parens: r.chance(1, 2), named_consts: false }, consts: vec![] }.program(&text_model);
+    let guard = |f: &mut dyn FnMut() -> (String, Option<f64>)| -> (String, Option<f64>) {
+        std::panic::catch_unwind(std::panic::AssertUnwindSafe(|| f())).unwrap_or(("(panic)".to_string(), None))
+    };
+    let mut bopt = Some(b);
+    let o_builder = guard(&mut || match bopt.take().unwrap().solve_with(Clarabel) { Ok(s) => ("solution".to_string(), Some(s.value())), Err(BuilderError::Solver(e)) => (crate::props::c03::solver_error(&e), None), Err(BuilderError::Linearization(e)) => (crate::props::c01::lin_error(&e), None) });
+    let o_solver = guard(&mut || match RoocSolver::try_new(text.clone()) {
+        Ok(s) => match s.solve_using(rooc::solve_real_lp_problem_clarabel) {
+            Ok(sol) => ("solution".to_string(), Some(sol.value())),
+            Err(RoocSolverError::Solver(e)) => (crate::props::c03::solver_error(&e), None),
+            Err(RoocSolverError::Linearization(e)) => (crate::props::c01::lin_error(&e), None),
+            Err(RoocSolverError::Transform(_)) => ("(transform-error)".into(), None),
+        },
+        Err(_) => ("(parse-error)".into(), None),
+    });
+    let fns = IndexMap::new();
+    let runner = PipeRunner::new(vec![Box::new(CompilerPipe::new()), Box::new(PreModelPipe::new()), Box::new(ModelPipe::new()), Box::new(LinearModelPipe::new()), Box::new(RealSolver::new())]);
+    let o_pipe = guard(&mut || match runner.run(PipeableData::String(text.clone()), &PipeContext::new(vec![], &fns)) {
+        Ok(mut res) => match res.pop() { Some(PipeableData::RealSolution(sol)) => ("solution".to_string(), Some(sol.value())), _ => ("(pipe-no-solution)".into(), None) },
+        Err((e, _)) => { let s = format!("{:?}", e); (if s.contains("Infeasible") { "(infeasible)".into() } else if s.contains("Unbounded") { "(unbounded)".into() } else { format!("(pipe-error {})", sx::q(&s.chars().take(60).collect::<String>())) }, None) }
+    });
+    let o_direct = guard(&mut || RoocParser::new(text.clone()).parse_and_transform(vec![], &fns).ok().and_then(|tm| Linearizer::linearize(tm).ok())
+        .map(|lm| real_outcome(rooc::solve_real_lp_problem_clarabel(&lm))).unwrap_or(("(compile-error)".into(), None)));
+    let mut c = Case::default();
+    c.show = text.replace('\n', " ; ");
+    c.imp = format!("(real-doors (builder {} {:?}) (roocsolver {} {:?}) (pipe {} {:?}) (direct {} {:?}))", o_builder.0, o_builder.1, o_solver.0, o_solver.1, o_pipe.0, o_pipe.1, o_direct.0, o_direct.1);
+    c.tags = vec!["real-doors".into(), o_direct.0.trim_start_matches('(').split(|ch| ch == ' ' || ch == ')').next().unwrap_or("").to_string()];
+    c.nontrivial = o_direct.0 == "solution" || o_direct.0 == "(infeasible)";
+    let all = [&o_builder, &o_solver, &o_pipe, &o_direct];
+    if all.iter().any(|o| o.0 == "(panic)") {
+        c.impl_violation = Some(format!("a real-solver front door panicked: {}", c.imp));
+        c.sig = Some(if text_model.domain().values().all(|d| !d.is_used()) { "clarabel-panic-no-variables".into() } else { "clarabel-panic".into() });
+    } else if all.iter().any(|o| o.0 != o_direct.0) {
+        c.impl_violation = Some(format!("real-solver front doors disagree on the verdict: {}", c.imp));
+    } else if !matches!(m.objective().objective_type, OptimizationType::Satisfy) {
+        if let Some(v) = o_direct.1 {
+            if all.iter().any(|o| o.1.map(|w| (w - v).abs() > 1e-5 * v.abs().max(1.0)).unwrap_or(true)) {
+                c.impl_violation = Some(format!("real-solver front doors disagree on the optimal value: {}", c.imp));
+            }
+        }
+    }
+    c
 }
 
 fn one(m: &Model, ds: &[VarDecl], r: &mut Rng, i: usize) -> Vec<Case> {
@@ -210,14 +351,24 @@ fn one(m: &Model, ds: &[VarDecl], r: &mut Rng, i: usize) -> Vec<Case> {
             }
         }
     };
+    let o_pipe_milp = {
+        let runner = PipeRunner::new(vec![Box::new(CompilerPipe::new()), Box::new(PreModelPipe::new()), Box::new(ModelPipe::new()), Box::new(LinearModelPipe::new()), Box::new(MILPSolverPipe::new())]);
+        let fns = IndexMap::new();
+        match runner.run(PipeableData::String(text.clone()), &PipeContext::new(vec![], &fns)) {
+            Ok(mut res) => match res.pop() { Some(PipeableData::MILPSolution(sol)) => format!("(solution {})", sx::num(sol.value())), _ => "(pipe-no-solution)".into() },
+            Err((e, _)) => { let s = format!("{:?}", e); if s.contains("Infeasible") { "(infeasible)".into() } else if s.contains("Unbounded") { "(unbounded)".into() } else { format!("(pipe-error {})", sx::q(&s.chars().take(50).collect::<String>())) } }
+        }
+    };
     // agreement of the doors
     let mut c = Case::default();
     c.show = text.replace('\n', " ; ");
-    c.imp = format!("(doors (builder {}) (text {}) (pipe {}))", o_builder, o_text, o_pipe);
+    c.imp = format!("(doors (builder {}) (text {}) (pipe {}) (pipe-milp {}))", o_builder, o_text, o_pipe, o_pipe_milp);
     c.tags = vec!["doors".into(), outcome_class(&o_builder)];
     c.nontrivial = o_builder.starts_with("(solution") || o_builder == "(infeasible)";
-    let classes = [outcome_class(&o_builder), outcome_class(&o_text), outcome_class(&o_pipe)];
-    if classes[0] != classes[1] || classes[0] != classes[2] {
+    let classes = [outcome_class(&o_builder), outcome_class(&o_text), outcome_class(&o_pipe), outcome_class(&o_pipe_milp)];
+    // a variable-free model: the MILP entry point has no special case for it (auto_solver does)
+    let no_vars = text_model.domain().values().all(|d| !d.is_used());
+    if classes[0] != classes[1] || classes[0] != classes[2] || (classes[0] != classes[3] && !no_vars) {
         c.impl_violation = Some(format!("front doors disagree on the verdict: {}", c.imp));
     } else if matches!(m.objective().objective_type, OptimizationType::Satisfy) {
         // a feasibility problem has no optimal value to agree on (the text door reports its dummy objective 1,
